@@ -31,7 +31,8 @@ type placeSim struct {
 	ns          string
 	parts       int
 	replica     int
-	checked     int  // layouts produced and checked
+	checked     int // layouts produced and checked
+	mapSeed     uint32
 	fatal       bool // an unexplained violation was recorded: stop the history
 	knownPanics int
 	refused     int
@@ -233,6 +234,9 @@ func (s *placeSim) evaluate(tag string, ver string, old [][]string, fresh bool) 
 		return nil
 	}
 	for i := 0; i < 2; i++ {
+		// (only effective in builds with the detmap overlay: another map order)
+		s.mapSeed += 0x9E3779B9
+		seedMapOrder(s.mapSeed)
 		r := s.evalOnce(ver, old)
 		if r.key() != r1.key() {
 			s.viol("nondeterministic", "", "same inputs gave different results: %s vs %s; input %s", short(r1), short(r), desc())
